@@ -137,9 +137,14 @@ Inductive gerr := GErrSyntax | GErrNul.
 (* the UTF-8 byte order mark is skipped; a partial one is an error *)
 Definition strip_bom (s : bytes) : option bytes :=
   match s with
-  | 239 :: 187 :: 191 :: r => Some r
-  | 239 :: _ => None
-  | _ => Some s
+  | c1 :: r1 =>
+    if c1 =? 239 then
+      match r1 with
+      | c2 :: c3 :: r => if (c2 =? 187) && (c3 =? 191) then Some r else None
+      | _ => None
+      end
+    else Some s
+  | [] => Some s
   end.
 
 Definition ginit : gstate := GS None [] (MTop false).
